@@ -154,6 +154,10 @@ let finish_run () =
         let v = valid { s with sx = rx; sfx = fx; sgx = rg } in
         if status = 1 && not (v && tf (gradient_test { s with sx = rx; sfx = fx; sgx = rg }) < tf eps) then
           preport (Printf.sprintf "RUN %s C02_lsloop_status: converged without the gradient criterion at the returned point" id);
+        if status = 1 && nd > 0 && not dns.(nd - 1).d_ok then
+          preport (Printf.sprintf "RUN %s C02_lsloop_status: converged after a failed line search (repo 85997bc)" id);
+        if algi <= 2 && status <> 2 && nd > 0 && not (tf fx <= tf dns.(0).d_fx) then
+          preport (Printf.sprintf "RUN %s C02_lsloop_not_worse_unless_failed: f=%s f0=%s status=%d" id (hex fx) (hex dns.(0).d_fx) status);
         if status = 2 && nd > 0 && dns.(nd - 1).d_ok && v then preport (Printf.sprintf "RUN %s C02_lsloop_status: failed with iter_ok and a valid state" id)
       | _ -> report (Printf.sprintf "RUN %s bad LSRET line" id))
    | _ -> report "bad LSRUN line");
